@@ -10,7 +10,7 @@
    Unmod (the code would read or write outside its buffers, loop, or take a
    path this model does not cover) | NoFuel.  No proofs in this file. *)
 From Coq Require Import List ZArith Bool.
-From RtoscV Require Import Pretty.Tok Pretty.FloatFmt.
+From RtoscV Require Import Pretty.Tok Pretty.FloatFmt Pretty.TimeFmt.
 Import ListNotations.
 Local Open Scope Z_scope.
 
@@ -277,6 +277,55 @@ Definition scan_numeric (s : str) : R (av * str) :=
       else Ok (v1, s1)
   end.
 
+(* the date branch of rtosc_scan_arg_val: "%4d-%2d-%2d", then " %2d:%2d" and
+   ":%2d" if present, then the fraction: ".ddd (...+<hex float>s)" (the exact
+   value is taken), or ".ddd" (the decimal value), converted by
+   rtosc_float2secfracs; mktime gives the seconds *)
+Definition scan_date (src : str) : R (list av * str) :=
+  match run_fmt [Ddw 4; DLit 45; Ddw 2; DLit 45; Ddw 2] src [] with
+  | Some ([y; mo; d], s1) =>
+      let '(h, mi, s2) := match run_fmt [DWs; Ddw 2; DLit 58; Ddw 2] s1 [] with
+                          | Some ([h; mi], r) => (h, mi, r)
+                          | _ => (0, 0, s1) end in
+      let '(se, s3) := match run_fmt [DLit 58; Ddw 2] s2 [] with
+                       | Some ([se], r) => (se, r)
+                       | _ => (0, s2) end in
+      let frac : R (Z * str) :=
+        if hd0 s3 =? 46 then
+          let exact := match sc_f s3 with
+                       | Some (_, _, r) => match run_fmt [DWs; DLit 40] r [] with Some (_, r') => Some r' | None => None end
+                       | None => None end in
+          match exact with
+          | Some s4 =>
+              (* sscanf(src, " ... + %f s )%n", &secfracsf, &rd) *)
+              match run_fmt [DWs; DLit 46; DLit 46; DLit 46; DWs; DLit 43; DWs] s4 [] with
+              | Some (_, s5) =>
+                  match sc_f s5 with
+                  | Some (hx, t, r) =>
+                      match run_fmt [DWs; DLit 115; DWs; DLit 41] r [] with
+                      | Some (_, s6) => match float2secfracs (flt_val hx t) with
+                                        | Some sf => Ok (sf, s6) | None => Unmod end
+                      | None => Unmod          (* secfracsf assigned, rd = 0: src stays *)
+                      end
+                  | None => Unmod              (* secfracsf is not assigned *)
+                  end
+              | None => Unmod
+              end
+          | None =>
+              match sc_f s3 with
+              | Some (hx, t, r) => match float2secfracs (flt_val hx t) with
+                                   | Some sf => Ok (sf, r) | None => Unmod end
+              | None => Unmod
+              end
+          end
+        else Ok (0, s3) in
+      match frac with
+      | Ok (sf, s7) => Ok ([VTm ((secs_of_date y mo d h mi se) mod 2 ^ 32 * 2 ^ 32 + sf mod 2 ^ 32)], s7)
+      | Null => Null | Unmod => Unmod | NoFuel => NoFuel
+      end
+  | _ => Unmod
+  end.
+
 (* ---- rtosc_scan_arg_val ---------------------------------------------------------- *)
 (* the recursive calls: src, the slots written before in this list, the
    args_before argument, follow_ellipsis *)
@@ -371,7 +420,7 @@ Definition scan_core (rec : scan_t) (src : str) : R (list av * str) :=
           | _ => Unmod
           end
         else if isidstart c then Ok ([VSym (takewhile isidchar src)], dropwhile isidchar src)
-        else if negb (same_pos (skip_fmt fmt_date src) src) then Unmod
+        else if negb (same_pos (skip_fmt fmt_date src) src) then scan_date src
         else match scan_numeric src with
              | Ok (v, r) => Ok ([v], r)
              | Null => Null | Unmod => Unmod | NoFuel => NoFuel
@@ -497,6 +546,28 @@ Fixpoint skip_array_loop (rec : skip_t) (fuel : nat) (src : str) (recent : optio
       end
   end.
 
+(* the date branch of the checker, after "YYYY-MM-DD": nested
+   if(skip_fmt(" %*2d:%*1d%*1d")) if(skip_fmt(":%*1d%*1d")) if(skip_fmt(".%*d"))
+   { if(skip_fmt(" ( ... + 0x")) { skip_fmt("%*x."); if(skip_fmt("%*xp"))
+     { sscanf("-%d s )%n"): 0 < exponent <= 32 } else NULL } } *)
+Definition skip_date (s0 : str) : R (str * Z * Z) :=
+  let adv (a b : str) := negb (same_pos a b) in
+  let s1 := skip_fmt [DWs; Ddw 2; DLit 58; Ddw 1; Ddw 1] s0 in
+  if negb (adv s1 s0) then Ok (s0, 1, 116) else
+  let s2 := skip_fmt [DLit 58; Ddw 1; Ddw 1] s1 in
+  if negb (adv s2 s1) then Ok (s1, 1, 116) else
+  let s3 := skip_fmt [DLit 46; Dd] s2 in
+  if negb (adv s3 s2) then Ok (s2, 1, 116) else
+  let s4 := skip_fmt [DWs; DLit 40; DWs; DLit 46; DLit 46; DLit 46; DWs; DLit 43; DWs; DLit 48; DLit 120] s3 in
+  if negb (adv s4 s3) then Ok (s3, 1, 116) else
+  let s5 := skip_fmt [Dx; DLit 46] s4 in
+  let s6 := skip_fmt [Dx; DLit 112] s5 in
+  if negb (adv s6 s5) then Null else
+  match run_fmt [DLit 45; Dd; DWs; DLit 115; DWs; DLit 41] s6 [] with
+  | Some ([expm], s7) => if (0 <? expm) && (expm <=? 32) then Ok (s7, 1, 116) else Null
+  | _ => Null
+  end.
+
 (* strstr(llhssrc, "...") , skipping the "(...+" of a time tag *)
 Fixpoint find_ellipsis (s : str) (lastns : Z) : option str :=
   match s with
@@ -583,7 +654,7 @@ Definition skip_core (rec : skip_t) (src : str) (inside_bundle : bool) : R (str 
           end
         else ret (
         if isidstart c then Ok (dropwhile isidchar src, 1, ty_S)
-        else if negb (same_pos (skip_fmt fmt_date src) src) then Unmod
+        else if negb (same_pos (skip_fmt fmt_date src) src) then skip_date (skip_fmt fmt_date src)
         else
           match skip_numeric src with
           | None => Null
